@@ -14,7 +14,7 @@ from . import tacdlib as T
 LEVEL = 'fault_enumeration'
 CATALOGUE = ['connect_close', 'garbage', 'http', 'tls_no_alpn', 'tls_foreign_alpn', 'hello_abandon', 'stall']
 # behaviours added after the seeded changes of round 2: abortive close (RST) and handshakes asking for odd server names
-EXTRA = ['rst_close', 'tls_odd_sni', 'hello_alert', 'rst_storm']
+EXTRA = ['rst_close', 'tls_odd_sni', 'hello_alert', 'rst_storm', 'huge_alpn']
 # plus 'slow<seconds>': connections kept open and silent for that long (added to a few histories, see gen_histories)
 
 
@@ -35,6 +35,9 @@ def one_history(h):
                 if b.startswith('slow'):
                     # forty connections that stay open and silent (or stuck mid-record) for several seconds
                     steps.append({'do': 'stall', 'count': 40, 'hold_ms': int(float(b[4:] or 6.5) * 1000), 'valid_meanwhile': True})
+                elif b.startswith('stallmany'):
+                    # one silent client that stays, more than a thousand short connections meanwhile, and a validating client before it leaves
+                    steps.append({'do': 'stall', 'count': 2, 'hold_ms': 1500, 'short_conns': int(b[9:] or 1100), 'valid_meanwhile': True})
                 elif b.startswith('wait'):
                     # nothing happens for a while (failures spread over more than half a minute)
                     steps.append({'do': 'sleep', 'ms': int(float(b[4:]) * 1000)})
@@ -93,6 +96,7 @@ def gen_histories(tier):
     if tier != 'quick':
         slow += [('tls_foreign_alpn', 'slow12'), ('slow35',), ('slow35', 'connect_close'), ('slow12', 'slow12')]
     seqs += slow
+    seqs += [('stallmany1100',), ('http', 'stallmany2200'), ('stallmany1100', 'stallmany1100')]
     # failures far apart in time: one, another soon after, a third more than half a minute later
     seqs += [('garbage', 'http', 'wait31', 'tls_foreign_alpn'), ('tls_foreign_alpn', 'connect_close', 'wait31', 'garbage', 'wait31', 'http')]
     # descriptor shortages, repeated
@@ -151,7 +155,7 @@ def run(tier):
     chk.exhaustive = exhaustive
     chk.rule = ('ordered selections of <= 4 behaviours from the 7-entry catalogue (all of length <= 2%s), each against a fresh '
                 'shipped-profile tacd, followed by a valid handshake; distinct = (history, listener) whose hostile '
-                'connections were all actually played; plus fatal alerts after the ClientHello, storms of abortive closes, failures spread over more than 30 s, slow clients (40 connections silent for 6.5-35 s), descriptor shortages (100 clients against a responder limited to 64 descriptors), abortive closes and odd server names alone and paired with every entry' % (' plus all of length 3 and 4' if exhaustive else ' plus 150 random of length 3-4'))
+                'connections were all actually played; plus ALPN lists of up to 30000 names, a silent client kept while more than a thousand short connections come and go, fatal alerts after the ClientHello, storms of abortive closes, failures spread over more than 30 s, slow clients (40 connections silent for 6.5-35 s), descriptor shortages (100 clients against a responder limited to 64 descriptors), abortive closes and odd server names alone and paired with every entry' % (' plus all of length 3 and 4' if exhaustive else ' plus 150 random of length 3-4'))
     chk.assumptions = ['tacd binary built with the repository release profile (panic=abort)']
     return chk.finish()
 
